@@ -124,38 +124,80 @@ def judge(chk, module: str, records: list[dict], *, consts: dict | None = None, 
     return bads
 
 
-def _run_shard(binp, base: Path, projects: list[dict], timeout: int) -> dict:
-    """projlib.compile_all's loop for one child-process chain: a process death (abort, stack overflow) is attributed
-    to the project that was running; the remaining projects run in a new process."""
+def _run_shard(binp, base: Path, projects: list[dict], timeout: int, per_project_timeout: int = 300) -> dict:
+    """One child-process chain of h_compile, fed ONE project at a time (so that a crash costs a process start, not a
+    re-send of the remaining input).  A process death (abort, stack overflow) is attributed to the project that was
+    running (outcome "abort"); a compile that does not finish within per_project_timeout is killed (outcome "timeout")."""
+    import queue
     import subprocess
+    import threading
     base.mkdir(parents=True, exist_ok=True)
+    errpath = base / "stderr.txt"
     results: dict = {}
-    lines = [json.dumps(p) for p in projects]            # serialised once (a crash re-sends only the tail)
-    ids = [json.dumps(p.get("id")) for p in projects]
-    start = 0
-    while start < len(lines):
-        inp = "\n".join(lines[start:]) + "\n"
+
+    def start():
+        errf = open(errpath, "w")
+        proc = subprocess.Popen([str(binp), str(base)], stdin=subprocess.PIPE, stdout=subprocess.PIPE, stderr=errf, text=True,
+                                encoding="utf-8", bufsize=1)
+        q: queue.Queue = queue.Queue()
+
+        def pump():
+            for line in proc.stdout:             # iteration splits at "\n" only
+                q.put(line)
+            q.put(None)
+        threading.Thread(target=pump, daemon=True).start()
+        return proc, q, errf
+
+    def stop(proc, errf):
         try:
-            p = subprocess.run([str(binp), str(base)], input=inp, stdout=subprocess.PIPE, stderr=subprocess.PIPE, text=True, timeout=timeout)
-        except subprocess.TimeoutExpired:
-            raise ToolError("h_compile timed out")
-        running = None
-        for line in p.stdout.split("\n"):          # NOT splitlines(): U+2028 etc. inside JSON strings are not record separators
-            if not line.strip():
-                continue
-            o = json.loads(line)
-            if "begin" in o and len(o) == 1:
-                running = o["begin"]
-                continue
-            results[json.dumps(o.get("id"))] = o
-            running = None
-        if p.returncode == 0 and running is None:
-            break
-        if running is None:
-            raise ToolError(f"h_compile failed rc={p.returncode}: {p.stderr[-1500:]}")
-        results[json.dumps(running)] = {"id": running, "outcome": "abort", "rc": p.returncode,
-                                        "stderr": p.stderr[-400:].encode("ascii", "replace").decode()}
-        start = ids.index(json.dumps(running), start) + 1
+            proc.stdin.close()
+        except Exception:
+            pass
+        try:
+            proc.wait(timeout=10)
+        except Exception:
+            proc.kill()
+        errf.close()
+
+    proc, q, errf = start()
+    try:
+        for pr in projects:
+            key = json.dumps(pr.get("id"))
+            dead = False
+            try:
+                proc.stdin.write(json.dumps(pr) + "\n")
+                proc.stdin.flush()
+            except (BrokenPipeError, OSError):
+                dead = True
+            obs = None
+            while not dead:
+                try:
+                    line = q.get(timeout=per_project_timeout)
+                except queue.Empty:
+                    proc.kill()
+                    obs = {"id": pr.get("id"), "outcome": "timeout"}
+                    break
+                if line is None:
+                    dead = True
+                    break
+                if not line.strip():
+                    continue
+                o = json.loads(line)
+                if "begin" in o and len(o) == 1:
+                    continue
+                obs = o
+                break
+            if obs is None:                      # the process died while this project was being compiled
+                proc.wait()
+                errf.close()
+                tail = errpath.read_text(errors="replace")[-400:].encode("ascii", "replace").decode()
+                obs = {"id": pr.get("id"), "outcome": "abort", "rc": proc.returncode, "stderr": tail}
+            results[key] = obs
+            if obs["outcome"] in ("abort", "timeout"):
+                stop(proc, errf)
+                proc, q, errf = start()
+    finally:
+        stop(proc, errf)
     return results
 
 
